@@ -8,6 +8,8 @@ use vstd::string::*;
 
 verus! {
 
+global size_of usize == 8;
+
 // ---- big-endian helpers (spec) ---------------------------------------------------------------
 pub open spec fn be16(s: Seq<u8>, o: int) -> int {
     s[o] as int * 256 + s[o + 1] as int
@@ -26,29 +28,30 @@ pub open spec fn pad4(n: int) -> int {
 }
 
 // ---- A-be: to_be_bytes through a wrapper trait (rule R3) -------------------------------------
+pub open spec fn img_be16(v: int) -> Seq<u8> {
+    seq![(v / 256) as u8, (v % 256) as u8]
+}
+
+pub open spec fn img_be32(v: int) -> Seq<u8> {
+    seq![(v / 0x100_0000) as u8, ((v / 0x1_0000) % 256) as u8, ((v / 256) % 256) as u8, (v % 256) as u8]
+}
+
+pub open spec fn img_be64(v: int) -> Seq<u8> {
+    img_be32(v / 0x1_0000_0000) + img_be32(v % 0x1_0000_0000)
+}
+
 pub trait VpBe<const N: usize>: Sized {
-    spec fn be_val(self) -> int;
+    spec fn be_img(self) -> Seq<u8>;
 
     fn vp_to_be_bytes(self) -> (r: [u8; N])
         ensures
-            r@.len() == N,
-            be_n(r@, N as int) == self.be_val(),
+            r@ == self.be_img(),
     ;
 }
 
-pub open spec fn be_n(s: Seq<u8>, n: int) -> int
-    decreases n,
-{
-    if n <= 0 {
-        0
-    } else {
-        be_n(s, n - 1) * 256 + s[n - 1] as int
-    }
-}
-
 impl VpBe<2> for u16 {
-    open spec fn be_val(self) -> int {
-        self as int
+    open spec fn be_img(self) -> Seq<u8> {
+        img_be16(self as int)
     }
 
     #[verifier::external_body]
@@ -58,8 +61,8 @@ impl VpBe<2> for u16 {
 }
 
 impl VpBe<4> for u32 {
-    open spec fn be_val(self) -> int {
-        self as int
+    open spec fn be_img(self) -> Seq<u8> {
+        img_be32(self as int)
     }
 
     #[verifier::external_body]
@@ -69,8 +72,8 @@ impl VpBe<4> for u32 {
 }
 
 impl VpBe<8> for u64 {
-    open spec fn be_val(self) -> int {
-        self as int
+    open spec fn be_img(self) -> Seq<u8> {
+        img_be64(self as int)
     }
 
     #[verifier::external_body]
@@ -79,31 +82,81 @@ impl VpBe<8> for u64 {
     }
 }
 
-pub proof fn lemma_be_n_2(s: Seq<u8>)
+// ---- A-lang: Rust guarantees every slice / str / Vec occupies at most isize::MAX bytes --------------
+pub broadcast axiom fn axiom_slice_len_bound(s: &[u8])
     ensures
-        be_n(s, 2) == be16(s, 0),
-{
-    reveal_with_fuel(be_n, 3);
+        #[trigger] s@.len() <= isize::MAX,
+;
+
+pub broadcast axiom fn axiom_str_len_bound(s: &str)
+    ensures
+        #[trigger] s.spec_bytes().len() <= isize::MAX,
+;
+
+pub broadcast group group_lang {
+    axiom_slice_len_bound,
+    axiom_str_len_bound,
 }
 
-pub proof fn lemma_be_n_4(s: Seq<u8>)
+// ---- bit-level identities used by the header code (proved by the bit-vector back end) -----------
+pub proof fn lemma_hdr_bits(b: u8)
     ensures
-        be_n(s, 4) == be32(s, 0),
+        (b >> 6) as int == b as int / 64,
+        ((b & 0x20) != 0) == ((b as int / 32) % 2 == 1),
+        (b & 0x1f) as int == b as int % 32,
 {
-    reveal_with_fuel(be_n, 5);
+    assert((b >> 6) == b / 64) by (bit_vector);
+    assert(((b & 0x20) != 0) == ((b / 32) % 2 == 1)) by (bit_vector);
+    assert((b & 0x1f) == b % 32) by (bit_vector);
 }
 
-pub proof fn lemma_be_n_8(s: Seq<u8>)
+pub proof fn lemma_hdr_compose(v: u8, p: bool, count: u8)
+    requires
+        count <= 31,
+        v <= 3,
     ensures
-        be_n(s, 8) == be64(s, 0),
+        ((v << 6) | (if p { 0x20u8 } else { 0u8 }) | count) as int == v as int * 64 + (if p { 32int } else { 0 }) + count as int,
+        ((v << 6) | count) as int == v as int * 64 + count as int,
 {
-    reveal_with_fuel(be_n, 9);
-    assert(be_n(s, 8) == be32(s, 0) * 0x1_0000_0000 + be32(s, 4)) by (nonlinear_arith)
+    assert(((v << 6) | 0x20u8 | count) == v * 64 + 32 + count) by (bit_vector)
         requires
-            be_n(s, 8) == (((((((s[0] as int * 256 + s[1] as int) * 256 + s[2] as int) * 256 + s[3] as int) * 256 + s[4] as int) * 256 + s[5] as int) * 256 + s[6] as int) * 256 + s[7] as int),
-            be32(s, 0) == ((s[0] as int * 256 + s[1] as int) * 256 + s[2] as int) * 256 + s[3] as int,
-            be32(s, 4) == ((s[4] as int * 256 + s[5] as int) * 256 + s[6] as int) * 256 + s[7] as int,
+            count <= 31,
+            v <= 3,
     ;
+    assert(((v << 6) | 0u8 | count) == v * 64 + count) by (bit_vector)
+        requires
+            count <= 31,
+            v <= 3,
+    ;
+    assert(((v << 6) | count) == v * 64 + count) by (bit_vector)
+        requires
+            count <= 31,
+            v <= 3,
+    ;
+}
+
+pub proof fn lemma_trunc16(y: usize)
+    ensures
+        (y as u16) as int == (y as int) % 65536,
+{
+    assert(((y as u16) as usize) == y % 0x10000usize) by (bit_vector);
+}
+
+pub proof fn lemma_trunc8(y: usize)
+    ensures
+        (y as u8) as int == (y as int) % 256,
+{
+    assert(((y as u8) as usize) == y % 0x100usize) by (bit_vector);
+}
+
+pub proof fn lemma_pad4(n: usize)
+    requires
+        n <= usize::MAX - 3,
+    ensures
+        (((n + 3) as usize) & !3usize) as int == pad4(n as int),
+{
+    let m = (n + 3) as usize;
+    assert((m & !3usize) == m - (m % 4)) by (bit_vector);
 }
 
 // ---- A-arr: slice -> array conversions (rule R4) ---------------------------------------------
